@@ -545,3 +545,54 @@ from contracts import graph_utils as _gu
 CONTRACTS.append(_gu.collect_residues('C15'))
 CONTRACTS.append(_gu.partition_graph('C15'))
 CONTRACTS.append(_gu.make_residue_graph('C15'))
+
+
+# ------------------------------------------------------------------ ApplyRubberBand.run_molecule: which parameters reach apply_rubber_band
+def setup_arb_run(cx):
+    names = ('lower_bound', 'upper_bound', 'decay_factor', 'decay_power', 'base_constant', 'minimum_force')
+    vals = {n: cx.val('p_' + n, TReal) for n in names}
+    bt, rmd = cx.val('own_bond_type', TOpt(TInt)), cx.val('own_res_min_dist', TOpt(TInt))
+    ff_bt, ff_rmd = cx.val('ff_bond_type', TOpt(TInt)), cx.val('ff_res_min_dist', TOpt(TInt))
+    cx.spec_env.update(OWN_BT=bt, OWN_RMD=rmd, FF_BT=ff_bt, FF_RMD=ff_rmd)
+    cx.spec_env.update({'P_' + n.upper(): v for n, v in vals.items()})
+    PASSED = cx.heap('PASSED', Box(TSeq(TTuple(TOpt(TInt), TOpt(TInt)))))       # (bond_type, res_min_dist) of every call
+    selector, crit, molecule = Obj('selector'), Obj('domain_criterion'), Obj('Molecule')
+    cx.spec_env['MOLECULE'] = molecule
+
+    def variables_get(e, name, default):
+        if name == 'the-bond-type-variable':
+            return SV(TInt, z3.If(TOpt(TInt).is_none(ff_bt.e), z3.IntVal(default), TOpt(TInt).get(ff_bt.e)))
+        if name == 'the-res-min-dist-variable':
+            return SV(TInt, z3.If(TOpt(TInt).is_none(ff_rmd.e), z3.IntVal(default), TOpt(TInt).get(ff_rmd.e)))
+        raise EngineError('variables.get(%r)' % (name,))
+    molecule.attrs['force_field'] = Obj('ForceField', variables=Obj('variables', get=Builtin(variables_get, 'variables.get')))
+
+    def arb(e, mol, sel, **kw):
+        from pyvc.builtins import list_append
+        ok = mol is molecule and sel is selector and kw.get('domain_criterion') is crit and \
+            set(kw) == set(names) | {'bond_type', 'domain_criterion', 'res_min_dist'} and all(kw[n] is vals[n] for n in names)
+        e.oblige(ok, 'apply_rubber_band:gets-this-processor-parameters')
+        list_append(e, PASSED, (kw['bond_type'], kw['res_min_dist']))
+    cx.spec_env['apply_rubber_band'] = Builtin(arb, 'apply_rubber_band')
+    cx.spec_env['selectors'] = Obj('selectors', select_backbone=Obj('select_backbone'))     # a default argument of __init__
+    self = Obj('ApplyRubberBand', bond_type=bt, res_min_dist=rmd, selector=selector, domain_criterion=crit,
+               bond_type_variable='the-bond-type-variable', res_min_dist_variable='the-res-min-dist-variable', **vals)
+    return dict(self=self, molecule=molecule)
+
+
+arb_run_molecule = FunctionContract(
+    F, 'ApplyRubberBand.run_molecule', 'C15', setup=setup_arb_run,
+    requires=["len(old(PASSED)) == 0"],
+    ensures=[
+        # apply_rubber_band is called once, on this molecule, with the processor's selector, bounds, decay, constants and domain
+        # criterion; bond type and minimum residue distance are the processor's own if given, else the force field's variable, else
+        # the defaults 6 and 2
+        "result is MOLECULE and len(PASSED) == 1",
+        "PASSED[0][0] is not None and payload(PASSED[0][0]) == (payload(OWN_BT) if OWN_BT is not None else (payload(FF_BT) if FF_BT is not None else 6))",
+        "PASSED[0][1] is not None and payload(PASSED[0][1]) == (payload(OWN_RMD) if OWN_RMD is not None else (payload(FF_RMD) if FF_RMD is not None else 2))",
+    ],
+    modifies=['PASSED'],
+    canary=[("upper_bound=self.upper_bound,", "upper_bound=self.lower_bound,"),
+            ("if self.res_min_dist is None:", "if self.res_min_dist is not None:")],
+)
+CONTRACTS.append(arb_run_molecule)
